@@ -318,3 +318,24 @@ def execute(p, res):  # noqa: F811
 
 def component_of(p):  # noqa: F811
     return "spelling" if p.get("kind") == "spelling" else _component0(p)
+
+
+# ----------------------------------------------------------------------------- life-cycle equivalence of the components behind this property
+# (deep copy / pickle / state_dict / eval-train / cast round trip / no_grad ... leave the behaviour unchanged; shared helper kmc/lifecycle.py)
+_cases1, _execute1, _component1 = cases, execute, component_of
+
+
+def cases(tier, seed):  # noqa: F811
+    yield from _cases1(tier, seed)
+    yield f"{PID}|lifecycle", {"kind": "lifecycle", "tier": tier}
+
+
+def execute(p, res):  # noqa: F811
+    if p.get("kind") == "lifecycle":
+        from kmc import lifecycle
+        return lifecycle.run(PID, res)
+    return _execute1(p, res)
+
+
+def component_of(p):  # noqa: F811
+    return "lifecycle" if p.get("kind") == "lifecycle" else _component1(p)
